@@ -12,6 +12,8 @@ use std::sync::{Arc, OnceLock};
 
 #[derive(Clone, Copy, Debug, PartialEq, Eq)]
 enum TMode {
+    Sanity,
+    All,
     SanityIts,
     AllIts,
     AllItsStave,
@@ -22,6 +24,8 @@ enum TMode {
 impl TMode {
     fn args(&self) -> Vec<String> {
         let v: &[&str] = match self {
+            TMode::Sanity => &["check", "sanity"],
+            TMode::All => &["check", "all"],
             TMode::SanityIts => &["check", "sanity", "its"],
             TMode::AllIts => &["check", "all", "its"],
             TMode::AllItsStave => &["check", "all", "its-stave"],
@@ -35,6 +39,8 @@ impl TMode {
     }
     fn name(&self) -> &'static str {
         match self {
+            TMode::Sanity => "check sanity",
+            TMode::All => "check all",
             TMode::SanityIts => "check sanity its",
             TMode::AllIts => "check all its",
             TMode::AllItsStave => "check all its-stave",
@@ -165,7 +171,8 @@ fn case_impl(t0: &mut Tape, w: &Worker, exhaustive: bool) -> CaseResult {
         out.labels.push("skipped:too_large_for_exhaustive".into());
         return Ok(out);
     }
-    let mode = *ot.pick(&[TMode::SanityIts, TMode::AllIts, TMode::AllItsStave, TMode::ViewRdh, TMode::ViewData]);
+    // modes that load the payload and modes that skip it (seek on a file, read-and-discard on a pipe)
+    let mode = *ot.pick(&[TMode::Sanity, TMode::All, TMode::SanityIts, TMode::AllIts, TMode::AllItsStave, TMode::ViewRdh, TMode::ViewData]);
     let stdin = ot.chance(1, 2);
     let rdhs = rdhs_of(&cs.stream, &lay);
     let filter = if ot.chance(1, 3) { Filter::Link(rdhs[ot.below(rdhs.len())].link_id) } else { Filter::None };
@@ -262,7 +269,7 @@ pub fn build() -> Property {
     Property {
         id: "C18",
         rule: "Streams: conforming or G_mut-corrupted (well-framed) multi-link G_conf streams of 2..250 packets. Cut positions: 0..9, every RDH start -1/+0/+1/+8/+63/+64/+65, payload middle, packet end -1, \
-               100-packet batch boundaries, 30 random; thorough adds EVERY cut position 0..len of streams <= 3 kB. Modes {check sanity its, check all its, check all its-stave, view rdh, view its-readout-frames-data} \
+               100-packet batch boundaries, 30 random; thorough adds EVERY cut position 0..len of streams <= 3 kB. Modes {check sanity, check all (payload skipped), check sanity its, check all its, check all its-stave, view rdh, view its-readout-frames-data} \
                x {file, pipe} x {no filter, link filter}. Oracle: terminates by itself without panic/signal; with p = start of the incomplete packet, the error messages (resp. view rows) with offset < p are identical \
                for the truncated and the full input (stave-mode frame messages whose frame ends at/after p are removed from both sides). Non-trivial = a cut strictly inside a packet with a complete packet before it \
                (and for corrupted streams an error before the cut); distinct by stream hash x configuration.",
